@@ -1201,7 +1201,14 @@ func (s Subtitles) WriteToSSA(o io.Writer) (err error) {
 		var format = []string{ssaStyleFormatNameName}
 		var styles = make(map[string]*ssaStyle)
 		var styleNames []string
-		for _, s := range s.Styles {
+		// Loop through styles in a stable order since the format depends on it
+		var styleIDs []string
+		for id := range s.Styles {
+			styleIDs = append(styleIDs, id)
+		}
+		sort.Strings(styleIDs)
+		for _, id := range styleIDs {
+			var s = s.Styles[id]
 			var ss = newSSAStyleFromStyle(*s)
 			format = ss.updateFormat(formatMap, format)
 			styles[ss.name] = ss
